@@ -173,8 +173,8 @@ theorem tie_fill_with (s : Sys) (h : Inv s.buf) (hnd : NonDefect (clear s).1)
          simp only [fillWith, fillSpareWith, clear, truncateBack, bind_run, getBuf_bind, getBuf_run, ite_run, pure_run, hc,
            true_or, if_true, ite_true]
        rw [hm]
-       simp only [Gen.fill_with, Gen.fill_spare_with, hcl, clear, truncateBack, bind_run, getBuf_bind, getBuf_run, ite_run,
-         pure_run, hc, true_or, if_true, ite_true]
+       simp only [Gen.fill_with, Gen.fill_spare_with, fillSpareWith, hcl, clear, truncateBack, bind_run, getBuf_bind, getBuf_run,
+         ite_run, pure_run, hc, true_or, if_true, ite_true]
        all_goals (first | rfl | (simp only [hc, if_true, ite_true, true_or]; done))
      · simp only [Gen.fill_with, Gen.fill_spare_with, fillWith, bind_run, getBuf_run, ite_run, pure_run, hc, if_false,
          ite_false, hcl]
@@ -185,12 +185,19 @@ theorem tie_fill_with (s : Sys) (h : Inv s.buf) (hnd : NonDefect (clear s).1)
            cases u
            obtain ⟨hI1, hcap1⟩ := hI s1 hcs
            have hc1 : ¬ s1.buf.cap = 0 := by rw [hcap1]; exact hc
-           simp only [fillSpareWith, fillSpareWithLoop_eq_whileM, bind_run, getBuf_run, ite_run, hc1, if_false, ite_false,
-             pure_run]
-           rw [whileM_fill_congr _ ?_ _ s1 hI1]
-           · cases whileM "fill_spare_with: fuel exhausted" (do pure (decide ((← getBuf).size < (← getBuf).cap)))
-                 fillWithBody (s1.buf.cap - s1.buf.size) s1 with
-             | mk r s' => cases r <;> rfl
-           · fillBodyTie)
+           try simp only []
+           first
+           | rfl
+           | (cases fillSpareWith s1 with
+              | mk r2 s2 => cases r2 <;> rfl)      -- (`fill_spare_with` itself is the model's function on this run)
+           | (simp only [fillSpareWith, fillSpareWithLoop_eq_whileM, bind_run, getBuf_run, ite_run, hc1, if_false, ite_false,
+                pure_run]
+              first
+              | rfl
+              | (rw [whileM_fill_congr _ ?_ _ s1 hI1]
+                 · cases whileM "fill_spare_with: fuel exhausted" (do pure (decide ((← getBuf).size < (← getBuf).cap)))
+                       fillWithBody (s1.buf.cap - s1.buf.size) s1 with
+                   | mk r s' => cases r <;> rfl
+                 · fillBodyTie)))
 
 end CircBuf
